@@ -86,6 +86,7 @@ class Engine(Executor, Calls):
                         if cl.kind in ("requires", "ensures", "assume", "invariant"):
                             cl.ast = parse_expr(cl.text)
                             cl.extra["trace"] = uses_trace(cl.ast)
+                            cl.extra["caller_view"] = caller_view(cl.ast)
                         elif cl.kind == "modifies":
                             cl.extra["targets"] = [parse_expr(x.strip()) for x in split_top(cl.text)]
                         elif cl.kind == "after":
@@ -118,6 +119,9 @@ class Engine(Executor, Calls):
                                 if sig is None:
                                     raise SpecError("interface %s has no method %s" % (d.name, mn))
                                 self.pure_methods.setdefault(mn, ir.types[sig].get("results") or [])
+                                self.pure_sigs.setdefault(mn, [])
+                                if sig not in self.pure_sigs[mn]:
+                                    self.pure_sigs[mn].append(sig)
                                 self.pure_methods_by_iface.setdefault(t, set()).add(mn)
                         elif cl.kind == "axiom":
                             cl.ast = parse_expr(cl.text)
@@ -142,7 +146,34 @@ class Engine(Executor, Calls):
                 self.errors.append("%s:%d: %s" % (d.file, d.line, e))
 
     pure_methods_by_iface = {}
+    pure_sigs = {}
     defines = {}
+
+    def pure_uf(self, mname, sig):
+        """(uf base name, result types) of a pure interface method with signature sig (None: unambiguous only)"""
+        sigs = self.pure_sigs.get(mname) or []
+        if sig is None:
+            if len(sigs) != 1:
+                return None
+            sig = sigs[0]
+        if sig not in sigs:
+            return None
+        name = "m." + mname if len(sigs) == 1 else "m.%s@%d" % (mname, sigs.index(sig))
+        return name, self.ir.types[sig].get("results") or []
+
+    def sig_of(self, name):
+        """(argument types as logged in the trace, result types) of a callee by its SSA name"""
+        fn = self.ir.funcs.get(name)
+        if fn is not None:
+            return [p["type"] for p in fn["params"]], [r["type"] for r in fn["results"]]
+        import re
+        m = re.match(r"^\((.*)\)\.(\w+)$", name)
+        if m and m.group(1) in self.ir.types and self.ir.is_iface(m.group(1)):
+            sig = self.ir.iface_method_sig(m.group(1), m.group(2))
+            if sig:
+                ti = self.ir.types[sig]
+                return [m.group(1)] + (ti.get("params") or []), ti.get("results") or []
+        return None
 
     def resolve_type_name(self, name, pkg):
         ir = self.ir
@@ -505,6 +536,8 @@ class Engine(Executor, Calls):
         fvs = []
         for p in fn.get("freevars") or []:
             v = st.from_uf(p["type"], "fv." + p["name"], [])
+            if isinstance(v, PtrV):
+                st.assume(z3.Not(to_bool(v.nil)))   # a captured variable always exists
             fvs.append(v)
             names[p["name"]] = v
         if fn.get("recv") and isinstance(args[0], PtrV):
@@ -710,6 +743,24 @@ def _lemma_methods():
 
 
 Engine.verify_lemma, Engine.spec_type = None, None
+
+
+def caller_view(ast):
+    """the conjuncts of a postcondition that do not speak about the callee's own trace (what a caller may assume)"""
+    out = []
+
+    def conj(a):
+        if a[0] == "bin" and a[1] == "&&":
+            return conj(a[2]) + conj(a[3])
+        return [a]
+
+    for c in conj(ast):
+        if not uses_trace(c):
+            out.append(c)
+        elif c[0] == "bin" and c[1] == "==>" and not uses_trace(c[2]):
+            for d in caller_view(c[3]):
+                out.append(("bin", "==>", c[2], d))
+    return out
 
 
 def split_top(s):
